@@ -349,7 +349,16 @@ def check_model_cpp(tool, seed, idx, known, n_repro=4):
                 elif kv["vt_ok"] != "1":
                     key, what = "C17:c++:returned-object-vtables", "the returned object does not carry the source object's vtable pointer(s)"
                 else:
-                    if e["recv"] == "own":
+                    if e["recv"] == "own" and e["ret"] == "self":
+                        # consuming -> Self: counted after the returned object and the source are
+                        # gone; the object's own context handle is released once (by the returned
+                        # object), the wrapper's clone once (by the wrapper)
+                        base_ok = int(kv["boxdrops"]) == int(box) and int(kv["ctxclones"]) == int(arc) and int(kv["ctxdrops_orig"]) == int(arc)
+                        if base_ok and arc and kv["ctxdrops_clone"] == "0":
+                            known_or(K_CPP_CTXLEAK, "C17", f"member wrapper {kv['wrapper']} for the consuming entry {e['trait']}::{e['meth']} {where} clones the context before the call (___ctx) and never releases that clone")
+                            continue
+                        acct = base_ok and int(kv["ctxdrops_clone"]) == int(arc)
+                    elif e["recv"] == "own":
                         base_ok = int(kv["boxdrops"]) == int(box) and int(kv["ctxclones"]) == int(arc)
                         if base_ok and arc and kv["ctxdrops"] == "1" and kv["ctxdrops_orig"] == "1":
                             known_or(K_CPP_CTXLEAK, "C17", f"member wrapper {kv['wrapper']} for the consuming entry {e['trait']}::{e['meth']} {where} clones the context before the call (___ctx) and never releases that clone: context cloned 1x, released 1x (by the callee, for the consumed container); the C wrappers call ctx_arc_drop(&___ctx)")
